@@ -98,6 +98,17 @@ static std::string extern_case(const J &c) {
         else { Poly mh(N); for (int j = 0; j < N; j++) mh[j] = (uint32_t)m[j] * h; msg = mulint(X.s[bloc], mh); for (auto &v : msg) v = 0u - v; }
         for (int j = 0; j < N; j++) rowerr[p][j] = ph[j] - msg[j];
         if (!libenc) for (int j = 0; j < N; j++) if (rowerr[p][j] != 0) return "harness self-check: noise-free row has non-zero error";
+        // rows made by tGswSymEncrypt must themselves encrypt m*h on the block diagonal with noise of stdev alpha (9 alpha + 16 units for rounding and
+        // the FFT product a*s): otherwise a wrong row message would be absorbed into the measured error and oracle B would be an identity of the library with itself
+        if (libenc) {
+            const double lim = 9.0 * std::ldexp(1.0, 32 - (int)c["alog"].i(25)) + 16;
+            for (int j = 0; j < N; j++) if (std::fabs((double)(int32_t)rowerr[p][j]) > lim) {
+                char b2[300]; snprintf(b2, sizeof b2, "tGswSymEncrypt k=%d (l,Bgbit)=(%d,%d): row %d (block %d, level %d) coefficient %d is off its gadget message m*Bg^-%d by %d units, noise stdev 2^-%d = %.3g units",
+                                       k, l, Bgbit, p, bloc, idx, j, idx + 1, (int32_t)rowerr[p][j], (int)c["alog"].i(25), std::ldexp(1.0, 32 - (int)c["alog"].i(25)));
+                delete_TGswSample(g);
+                return b2;
+            }
+        }
     }
     // TLWE input
     std::vector<Poly> cin(k + 1, Poly(N));
